@@ -930,6 +930,95 @@ fn main() {
         }
     }
 
+    // ------------------------------------------------------------ C20: the settings block of the header under
+    // non-default, pairwise distinct values (every printed setting differs from every other, so a
+    // line that shows a neighbour's value is seen)
+    if !replaying {
+        let nset = if thorough { 60 } else { 12 };
+        for k in 0..nset {
+            let pickf = |rng: &mut Rng, v: &[f64]| v[rng.below(v.len())];
+            let st = DefaultSettings::<f64> {
+                verbose: true,
+                max_iter: 3 + rng.below(40) as u32,
+                time_limit: if k % 3 == 0 { f64::INFINITY } else { 1000.5 + rng.below(500) as f64 },
+                max_step_fraction: pickf(&mut rng, &[0.985, 0.97, 0.9, 0.975]),
+                tol_feas: pickf(&mut rng, &[3e-7, 2e-9, 4e-6]),
+                tol_gap_abs: pickf(&mut rng, &[5e-7, 6e-9, 7e-6]),
+                tol_gap_rel: pickf(&mut rng, &[8e-7, 9e-9, 1e-5]),
+                static_regularization_enable: rng.chance(1, 2),
+                static_regularization_constant: pickf(&mut rng, &[2e-8, 3e-9]),
+                static_regularization_proportional: pickf(&mut rng, &[4e-30, 5e-31]),
+                dynamic_regularization_enable: rng.chance(1, 2),
+                dynamic_regularization_eps: pickf(&mut rng, &[6e-13, 7e-12]),
+                dynamic_regularization_delta: pickf(&mut rng, &[8e-7, 9e-8]),
+                iterative_refinement_enable: rng.chance(1, 2),
+                iterative_refinement_reltol: pickf(&mut rng, &[2e-13, 3e-12]),
+                iterative_refinement_abstol: pickf(&mut rng, &[4e-12, 5e-11]),
+                iterative_refinement_max_iter: 11 + rng.below(9) as u32,
+                iterative_refinement_stop_ratio: pickf(&mut rng, &[2.5, 4.5, 6.0]),
+                equilibrate_enable: rng.chance(1, 2),
+                equilibrate_min_scaling: pickf(&mut rng, &[2e-4, 3e-5]),
+                equilibrate_max_scaling: pickf(&mut rng, &[4e4, 5e5]),
+                equilibrate_max_iter: 21 + rng.below(9) as u32,
+                ..DefaultSettings::default()
+            };
+            let st2 = st.clone();
+            let buf = guarded(move || {
+                let P = CscMatrix::<f64>::identity(2);
+                let A = CscMatrix::<f64>::identity(2);
+                let mut solver = DefaultSolver::new(&P, &[1.0, -1.0], &A, &[1.0, 1.0], &[NonnegativeConeT(2)], st2);
+                solver.print_to_buffer();
+                solver.solve();
+                solver.get_print_buffer().unwrap_or_default()
+            });
+            let text = match buf { Some(t) => t, None => { sink.record(json!({"direct": {"prop": "C20", "ok": false, "what": "solve with non-default settings panicked", "input": {"k": k}}})); continue; } };
+            // parse "group: .." / "key = value" pairs of the settings block
+            let mut found: Vec<(String, String, String)> = vec![];
+            let mut in_block = false;
+            let mut group = String::new();
+            for line in text.lines() {
+                if line.trim_start().starts_with("settings:") { in_block = true; continue; }
+                if !in_block { continue; }
+                if line.trim().is_empty() { break; }
+                let segs: Vec<&str> = line.split(',').collect();
+                for (si, seg) in segs.iter().enumerate() {
+                    let seg = seg.trim();
+                    if seg.is_empty() { continue; }
+                    if si == 0 {
+                        if let Some(pos) = seg.find(':') {
+                            let (g, rest) = seg.split_at(pos);
+                            if !g.contains('=') { group = g.trim().to_string(); found.push((group.clone(), "enable".into(), rest[1..].trim().to_string())); continue; }
+                        }
+                    }
+                    if let Some(pos) = seg.find('=') { found.push((group.clone(), seg[..pos].trim().to_string(), seg[pos + 1..].trim().to_string())); }
+                }
+            }
+            let onoff = |b: bool| if b { "on" } else { "false" };
+            let tl = if st.time_limit.is_infinite() { "Inf".to_string() } else { format!("{:?}", st.time_limit) };
+            let expect: Vec<(&str, &str, String)> = vec![
+                ("linear algebra", "max iter", format!("{}", st.max_iter)), ("linear algebra", "time limit", tl), ("linear algebra", "max step", format!("{}", st.max_step_fraction)),
+                ("linear algebra", "tol_feas", format!("{}", st.tol_feas)), ("linear algebra", "tol_gap_abs", format!("{}", st.tol_gap_abs)), ("linear algebra", "tol_gap_rel", format!("{}", st.tol_gap_rel)),
+                ("static reg", "enable", onoff(st.static_regularization_enable).into()), ("static reg", "ϵ1", format!("{}", st.static_regularization_constant)), ("static reg", "ϵ2", format!("{}", st.static_regularization_proportional)),
+                ("dynamic reg", "enable", onoff(st.dynamic_regularization_enable).into()), ("dynamic reg", "ϵ", format!("{}", st.dynamic_regularization_eps)), ("dynamic reg", "δ", format!("{}", st.dynamic_regularization_delta)),
+                ("iter refine", "enable", onoff(st.iterative_refinement_enable).into()), ("iter refine", "reltol", format!("{}", st.iterative_refinement_reltol)), ("iter refine", "abstol", format!("{}", st.iterative_refinement_abstol)),
+                ("iter refine", "max iter", format!("{}", st.iterative_refinement_max_iter)), ("iter refine", "stop ratio", format!("{}", st.iterative_refinement_stop_ratio)),
+                ("equilibrate", "enable", onoff(st.equilibrate_enable).into()), ("equilibrate", "min_scale", format!("{}", st.equilibrate_min_scaling)), ("equilibrate", "max_scale", format!("{}", st.equilibrate_max_scaling)),
+                ("equilibrate", "max iter", format!("{}", st.equilibrate_max_iter)),
+            ];
+            let mut wrong: Vec<String> = vec![];
+            for (g, key, want) in expect.iter() {
+                let got = found.iter().find(|(fg, fk, _)| fg == g && fk == key).map(|t| t.2.clone());
+                let ok = match &got {
+                    None => false,
+                    Some(v) => v == want || match (v.parse::<f64>(), want.parse::<f64>()) { (Ok(a), Ok(b)) => a == b, _ => false },
+                };
+                if !ok { wrong.push(format!("{} / {}: printed {:?}, setting {}", g, key, got, want)); }
+            }
+            sink.record(json!({"direct": {"prop": "C20", "ok": wrong.is_empty(), "what": "the settings block of the header shows the settings in force (non-default, pairwise distinct values)",
+                "input": {"wrong": wrong, "header": text.lines().skip_while(|l| !l.trim_start().starts_with("settings:")).take(12).collect::<Vec<_>>()}}}));
+        }
+    }
+
     // ------------------------------------------------------------ C20: routing histories against Solver/Route.v
     if !replaying || replay_has_route {
         let nh = if thorough { 1500 } else { 250 };
